@@ -1,6 +1,14 @@
 """Property -> rules table (DESIGN 3) with the evidence texts."""
 
 PROPS = {
+    'C11': {
+        'rules': ['R-chunk-length', 'R-chunk-kinds', 'R-cmd-shapes', 'R-wire-schema', 'R-bounded-write'],
+        'explanation': 'x', 'level_text': 'x', 'level_note': 'x', 'technique': 'x',
+    },
+    'C13': {
+        'rules': ['R-header-agree', 'R-codec-inverse', 'R-length-range', 'R-decode-contained', 'R-consume-once', 'R-parser-state', 'R-write-fifo'],
+        'explanation': 'x', 'level_text': 'x', 'level_note': 'x', 'technique': 'x',
+    },
     'C09': {
         'rules': ['R-payload-complete', 'R-version-in-payload', 'R-no-field-leak', 'R-snapshot-point', 'R-dump-atomic', 'R-version-pairing', 'R-transfer-restart'],
         'explanation': 'x', 'level_text': 'x', 'level_note': 'x', 'technique': 'x',
